@@ -19,6 +19,9 @@ world.install_plugin_shims()
 HEAD = "from inline_snapshot import snapshot\n\n"
 
 
+GROW = ("from inline_snapshot import snapshot\n\ndef test_a():\n    acc = []\n    for x in obs:\n        acc.append(x)\n        assert (x, acc) {op} snapshot()\n")
+
+
 def template(op, placement, m):
     """m observations obs[0..m-1] (values live in the namespace)"""
     cmpx = {"==": "{x} == {s}", "<=": "{x} <= {s}", ">=": "{x} >= {s}", "in": "{x} in {s}"}
@@ -59,7 +62,7 @@ def create_case(op, placement, obs_srcs, leafvals):
     if op == "==" and len(obs) > 1:
         obs = [obs[0]] * len(obs)  # one == snapshot must not be compared with different values (self-contradiction)
     W.ns["obs"] = obs
-    t = template(op, placement, len(obs))
+    t = template(op, placement, len(obs)) if placement != "grow" else GROW.format(op={"in": "in", "<=": "<=", "==": "=="}[op])
     r = world.plugin_session(t, cli="create")
     if r.finish_error is not None or r.usage_error is not None:
         return False
@@ -138,6 +141,9 @@ def conditions(tier):
     for pl in ("assert", "helper", "module", "loop"):
         for m in (1, 2, 3) if (not q or pl in ("assert", "loop")) else (2,):
             conds.append(_cond(f"in_int_{pl}_m{m}", "in", pl, [f"n{i}" for i in range(m)], [f"n{i}" for i in range(m)], "in"))
+    # the compared value is a tuple that holds a list which keeps growing after the comparison
+    conds.append(_cond("in_tuple_growing_list", "in", "grow", ["n0", "n1"], ["n0", "n1"], "in"))
+    conds.append(_cond("le_tuple_growing_list", "<=", "grow", ["n0", "n1"], ["n0", "n1"], "minmax"))
     conds.append(_cond("in_mixed_assert", "in", "assert", ["[n0]", "P(a=n1)", "Color.green", "Weird(4)"], ["n0", "n1"], "in"))
     conds.append(_cond("in_tuples_loop", "in", "loop", ["(n0, n1)", "(n2,)"], ["n0", "n1", "n2"], "in"))
     # sub-snapshots
